@@ -252,7 +252,7 @@ def create_for_folder_subcommand(
                 dir_hash_context_lookup[hash_format] = DirectoryHashContext(hash_format)
         for item_name, is_dir in children:
             file_path = os.path.join(folder_path, item_name)
-            not_found_paths.discard(file_path)
+            discard_found_path(not_found_paths, existing_history, file_path, is_dir)
             for hash_list in existing_history.hash_lists:
                 for media_hash in hash_list.media_hashes:
                     if media_hash.path == existing_history.get_relative_file_path(file_path):
@@ -646,7 +646,7 @@ def verify_entire_folder(
     for folder_path, children in post_order_lexicographic(root_path, ignore_spec.get_path_spec()):
         for item_name, is_dir in children:
             file_path = os.path.join(folder_path, item_name)
-            not_found_paths.discard(file_path)
+            discard_found_path(not_found_paths, existing_history, file_path, is_dir)
             relative_path = existing_history.get_relative_file_path(file_path)
             history, history_relative_path = existing_history.find_history_for_path(relative_path)
             if is_dir:
@@ -1089,7 +1089,7 @@ def diff_entire_folder_against_full_history_subcommand(root_path, verbose, ignor
     for folder_path, children in post_order_lexicographic(root_path, ignore_spec.get_path_spec()):
         for item_name, is_dir in children:
             file_path = os.path.join(folder_path, item_name)
-            not_found_paths.discard(file_path)
+            discard_found_path(not_found_paths, existing_history, file_path, is_dir)
             relative_path = existing_history.get_relative_file_path(file_path)
             history, history_relative_path = existing_history.find_history_for_path(relative_path)
             if is_dir:
@@ -1481,6 +1481,13 @@ def xsd_schema_check(file_path, directory_file, xsd_file):
         logger.error(f"ERROR: {file_path} didn't validate against XSD!")
         logger.info(f"Issues:\n{xsd.error_log}")
         raise errors.VerificationFailedException
+
+
+def discard_found_path(not_found_paths, history, file_path, is_dir):
+    # a folder does not stand in for a recorded file of the same name, and a file does not for a recorded folder:
+    # what was recorded is gone then
+    if file_path in not_found_paths and history.is_recorded_as_directory(file_path) == is_dir:
+        not_found_paths.discard(file_path)
 
 
 def test_for_missing_files(not_found_paths, root_path, ignore_spec: MHLIgnoreSpec = MHLIgnoreSpec(), history=None):
